@@ -324,6 +324,7 @@ class Interp:
             if orig != local and "." in dotted:
                 self.renames[local] = orig
         self.locals = _local_names(func)
+        self.mutated = _mutated_names(func)
         for name in list(self.renames):
             if name in self.locals:
                 del self.renames[name]
@@ -494,7 +495,10 @@ class Interp:
     def _merge(states: list[State]) -> State:
         base = states[0].copy()
         for st in states[1:]:
+            dropped = [k for k, v in base.alias.items() if not (k in st.alias and unparse(st.alias[k]) == unparse(v))] + [k for k in st.alias if k not in base.alias]
             base.alias = {k: v for k, v in base.alias.items() if k in st.alias and unparse(st.alias[k]) == unparse(v)}
+            for k in dropped:
+                base.kill_root(k)
             base.facts = {k: v for k, v in base.facts.items() if st.facts.get(k) == v}
             base.vals = {k: v | st.vals[k] for k, v in base.vals.items() if k in st.vals}
             base.nvals = {k: v & st.nvals[k] for k, v in base.nvals.items() if k in st.nvals}
@@ -818,7 +822,10 @@ class Interp:
                 or value.func.id == "defaultdict"
             )
         )
-        if fresh_container or isinstance(value, (ast.List, ast.Dict, ast.Set, ast.ListComp, ast.SetComp, ast.DictComp, ast.GeneratorExp)):
+        literal_display = isinstance(value, (ast.List, ast.Tuple, ast.Set)) and value.elts and all(const_token(e) is not None for e in value.elts)
+        if literal_display and name not in self.mutated:
+            pass  # a constant table that is never mutated in this function: its text is its value
+        elif fresh_container or isinstance(value, (ast.List, ast.Dict, ast.Set, ast.ListComp, ast.SetComp, ast.DictComp, ast.GeneratorExp)):
             # a fresh mutable object: its text does not identify it (two `[]` are different lists)
             st.kill_root(name)
             return
@@ -837,7 +844,10 @@ class Interp:
                 st.kill_root(other)
             st.alias[name] = value
             return
-        st.kill_root(name)
+        # `value` is an expression over root bindings (it was expanded before): giving `name` this alias makes every
+        # later mention of `name` expand to it; knowledge about the previous binding stays valid for that binding
+        # (still reachable through other aliases) and can never be confused with the new one
+        st.origin.pop(name, None)
         st.alias[name] = value
         st.touch()
 
@@ -1338,6 +1348,22 @@ def _local_names(func: Func) -> set[str]:
         if isinstance(cur, ast.Name) and isinstance(cur.ctx, (ast.Store, ast.Del)):
             out.add(cur.id)
         todo.extend(ast.iter_child_nodes(cur))
+    return out
+
+
+def _mutated_names(func: Func) -> set[str]:
+    """locals that are mutated in place somewhere in the function (receiver of a mutator, subscript store, augmented assignment)"""
+    out: set[str] = set()
+    for node in ast.walk(func.node):
+        if isinstance(node, ast.Call) and isinstance(node.func, ast.Attribute) and node.func.attr in MUTATORS and isinstance(node.func.value, ast.Name):
+            out.add(node.func.value.id)
+        elif isinstance(node, (ast.Assign, ast.AugAssign, ast.Delete)):
+            targets = node.targets if isinstance(node, (ast.Assign, ast.Delete)) else [node.target]
+            for t in targets:
+                if isinstance(t, ast.Subscript) and isinstance(t.value, ast.Name):
+                    out.add(t.value.id)
+                if isinstance(node, ast.AugAssign) and isinstance(t, ast.Name):
+                    out.add(t.id)
     return out
 
 
